@@ -1,7 +1,7 @@
 (** C19 — name and pattern matchers: equality, case folding, RE2 search, statelessness. *)
 From Coq Require Import String.
 From Cvg Require Import Base Re Unicode Matcher.
-From Cvg.proofs Require Import MatcherProofs.
+From Cvg.proofs Require Import ReFuelProofs MatcherProofs.
 Open Scope N_scope.
 
 (** :map / :conv / :literal paths (IdentMatcher): equality under the exact rule,
@@ -11,26 +11,30 @@ Theorem C19_ident :
 Proof. exact ident_match_spec. Qed.
 Print Assumptions C19_ident.
 
-(** A matcher's answers over ANY query sequence alternating the case rule are
-    those of a fresh matcher for (pattern, path, rule): no dependence on earlier
-    queries. The one hypothesis is that parsing the pattern under the exact rule does
-    not exhaust the parser's fuel (3 x (length + 2) steps; [PFuel] is a distinct
-    outcome, never observed, counted out of model when it is): then prefixing
-    "(?i)" changes neither validity nor the modelled fragment
-    ([C19_validity_case_independent], by simulation of two parser runs that differ
-    in flags and spare fuel), so recompiling on a rule change never yields nil. *)
-Theorem C19_validity_case_independent :
-  forall p, parse_re UT (pattern_expr p true) <> PFuel -> validity_case_independent p.
-Proof. exact validity_is_case_independent. Qed.
+(** A matcher's answers over ANY query sequence alternating the case rule are those of
+    a fresh matcher for (pattern, path, rule): no dependence on earlier queries — for
+    every pattern, with no side condition. Behind it: prefixing "(?i)" changes neither
+    validity nor the modelled fragment ([C19_validity_case_independent], by simulation of
+    two runs of the mutually recursive parser that differ in the flags in force and in
+    spare fuel, ReProofs.v), and the parser never exhausts the fuel regexp.Compile's model
+    gives it ([C19_parser_fuel_suffices], a measure argument over every branch of the
+    parser and of the class-body parser, ReFuelProofs.v), so recompiling on a rule
+    change never yields nil. *)
+Theorem C19_parser_fuel_suffices : forall e, parse_re UT e <> PFuel.
+Proof. exact (parse_re_never_out_of_fuel UT). Qed.
+Print Assumptions C19_parser_fuel_suffices.
+
+Theorem C19_validity_case_independent : forall p, validity_case_independent p.
+Proof. exact validity_case_independent_always. Qed.
 Print Assumptions C19_validity_case_independent.
 
 Theorem C19_stateless :
   forall p ex0 m qs,
-    new_pmatcher p ex0 = Some m -> parse_re UT (pattern_expr p true) <> PFuel ->
+    new_pmatcher p ex0 = Some m ->
     pm_answers m qs = List.map (fun q => pure_match p (fst q) (snd q)) qs.
 Proof.
-  intros p ex0 m qs H V. destruct (new_pmatcher_inv _ _ _ H) as [Hi <-].
-  exact (pm_stateless m qs Hi (validity_is_case_independent _ V)).
+  intros p ex0 m qs H. destruct (new_pmatcher_inv _ _ _ H) as [Hi <-].
+  exact (pm_stateless m qs Hi (validity_case_independent_always _)).
 Qed.
 Print Assumptions C19_stateless.
 
@@ -59,6 +63,5 @@ Example C19_examples :
   pure_match (s2b "/^\S+$/") (s2b "ab") false = MBool true /\
   pure_match (s2b "/\PL/") (s2b "ab") false = MBool false /\
   pure_match (s2b "User.Name") (s2b "UserXName") true = MBool false /\
-  validity_case_independent (s2b "/\pL/") /\
-  parse_re UT (pattern_expr (s2b "/^(a|b)*\pL{2,3}[x-z]$/") true) <> PFuel.
+  validity_case_independent (s2b "/\pL/").
 Proof. vm_compute. repeat split; intros; discriminate. Qed.
